@@ -35,7 +35,8 @@ impl FixtureDatabase {
 
         // Cache the file content for later use (e.g., in find_fixture_definition)
         // Use Arc for efficient sharing without cloning
-        self.file_cache
+        let previous_content = self
+            .file_cache
             .insert(file_path.clone(), std::sync::Arc::new(content.to_string()));
 
         // Derived caches (cycles, available fixtures, imported fixtures) are keyed by the
@@ -54,6 +55,18 @@ impl FixtureDatabase {
                     "Failed to parse Python file {:?}: {} - keeping previous data",
                     file_path, e
                 );
+                // Imports are re-read from the text of every file on an import chain.
+                // Keep the AST of the last version that parsed (the cached text, or the
+                // file on disk for a document that was closed), so that the fixtures this
+                // file provides through its imports are kept as well.
+                let previous_content = previous_content.or_else(|| {
+                    std::fs::read_to_string(&file_path)
+                        .ok()
+                        .map(std::sync::Arc::new)
+                });
+                if let Some(previous_content) = previous_content {
+                    let _ = self.get_parsed_ast(&file_path, &previous_content);
+                }
                 return;
             }
         };
